@@ -71,6 +71,7 @@ def gen_race(seed, tier):
             prog.insert(rng.randint(1, len(prog)), gen_sight_op(rng, None))
         # insertion shifts indices: re-point danger ops at their fire
         _repoint(prog)
+        simgen.add_clones(prog, rng, 0.15)
         programs.append(prog)
         roles[str(t)] = "client"
     programs.append(simgen.gen_units_flip_program(rng, rng.randint(3, 10)))
@@ -330,6 +331,7 @@ def gen_history(seed, tier):
                 prog.append({"op": "reset_globals"})
             continue
         prog.append(op)
+    simgen.add_clones(prog, rng, 0.3)
     cfg = {"mode": gen.pick(rng, ["none", "none", "cold"]), "policy": "serial", "mean_run": 1000, "opcode": False}
     return {"seed": seed, "mode7": "history", "world": w, "programs": [prog], "roles": {"0": "client"}, "config": cfg,
             "faults": []}
